@@ -295,6 +295,29 @@ def features(o):
     return sorted(set(f))
 
 
+def explained(o):
+    """the re-parsed pairs that the two spelling gaps alone would produce: an unbound pair or a URI without any
+    prefix is printed '|x' (-> ''), an attribute whose URI has only the default prefix (or none) is printed bare"""
+    view = dict(o["view"])
+    default = view.get("")
+    byuri = {}
+    for p, u in o["view"]:
+        byuri.setdefault(u, []).append(p)
+    out = []
+    for pr in o["pairs"]:
+        k, u, n = pr.split(":", 2)
+        if u == "None" and default:
+            u = "''"
+        elif u.startswith("'") and u != "''":
+            ps = byuri.get(u[1:-1])
+            if k == "a" and (ps == [""] or not ps):
+                continue
+            if not ps:
+                u = "''"
+        out.append("%s:%s:%s" % (k, u, n))
+    return out
+
+
 def effective_ok(o):
     """sheet.namespaces against the @namespace rules: (i) every entry p->u is what the LAST rule declaring p says,
     (ii) every URI declared by such a last rule is a value of the view, (iii) one prefix per URI"""
@@ -353,7 +376,13 @@ def oracle(case, obs):
         if e:
             yield ("sheet.namespaces differs from the effective @namespace rules: " + e, i, feats)
         if o["re_pairs"] != o["pairs"]:
+            if explained(o) != o["re_pairs"]:
+                feats = feats + ["unexplained"]
             yield ("re-parsed pairs differ (stored %s, re-parsed %s)" % (o["pairs"], o["re_pairs"]), i, feats)
+
+
+def _short(what):
+    return re.split(r"[:(]", what)[0].strip()
 
 
 def report(ctx, case, obs, counters):
@@ -361,7 +390,7 @@ def report(ctx, case, obs, counters):
     for what, i, feats in oracle(case, obs):
         n += 1
         w = {"start": case[0], "ops": [list(o) for o in case[1][:i]], "css": start_text(case[0]), "fails_at_step": i}
-        short = re.sub(r"\(.*", "", what).strip()
+        short = _short(what)
         sig = "features=%s" % ",".join(feats)
         if ctx.violation(short, w, sig_text=sig, detail=what):
             pass
@@ -517,7 +546,7 @@ def run(ctx):
                      for _ in range(1500)]
             for case, (lines, obs) in zip(batch, ctx.pool_map(impl_run, batch, procs=6, chunksize=64)):
                 for what, i, feats in oracle(case, obs):
-                    short = re.sub(r"\(.*", "", what).strip()
+                    short = _short(what)
                     if not ctx.match_known(short + " :: features=%s" % ",".join(feats)):
                         ops = list(case[1][:i])
                         # histories are shrunk by dropping operations while the same clause still fails
@@ -527,7 +556,7 @@ def run(ctx):
                             for j in range(len(ops)):
                                 cand = (case[0], tuple(ops[:j] + ops[j + 1:]))
                                 _, ob2 = impl_run(cand)
-                                if any(re.sub(r"\(.*", "", w2).strip() == short and
+                                if any(_short(w2) == short and
                                        not ctx.match_known(short + " :: features=%s" % ",".join(f2))
                                        for w2, _, f2 in oracle(cand, ob2)):
                                     ops = list(cand[1])
